@@ -411,9 +411,9 @@ TIES = {
                      theorems=['expect_death_eq', 'expect_death_tie', 'null_on_move_assign_ptr_tie', 'null_on_move_assign_copy_tie',
                                'null_on_move_assign_move_tie', 'null_on_move_copy_ctor_tie', 'null_on_move_move_ctor_tie'],
                      cxx='chain_lifetime_monitor, deathwatched<T>::trompeloeil_expect_death (lifetime.hpp), null_on_move<T>::operator= and its copy / move constructors (mock.hpp)'),
-    'Coro': dict(props=['C20'], gen=['HandleCoYield', 'HandleCoReturn', 'HandleCoThrow', 'CoBody'],
+    'Coro': dict(props=['C20'], gen=['HandleCoYield', 'HandleCoReturn', 'HandleCoThrow', 'CoBody', 'YieldExprExpr', 'CoThrowHandlerCall'],
                  theorems=['co_body_tie', 'handle_co_yield_eq', 'handle_co_return_eq', 'handle_co_throw_eq', 'handle_invalid', 'fold_shared',
-                           'registered_tie', 'registered_eq_ofClauses'],
+                           'registered_tie', 'registered_eq_ofClauses', 'yield_and_throw_clauses'],
                  cxx='handle_co_yield / handle_co_return / handle_co_throw ::action (registration of the CO_ clauses, shared yield list) '
                      'and co_return_handler_t::call (the coroutine body) (coro.hpp)'),
     'Params': dict(props=['C01', 'C15'], gen=['MatchParameters', 'PrintMismatchOne', 'PrintMismatchAll', 'MissedValue', 'StreamParams'],
